@@ -49,6 +49,15 @@ def run(ctx: Ctx):
     bad = {k: v for k, v in ann.items() if k in ("states", "parameters", "assignments", "state_derivatives", "intermediates") and not v.startswith("frozenset[")}
     ctx.check(not bad, "R10.b", f"src/gotranx/ode_component.py::BaseComponent::fields", "component fields are frozensets", f"BaseComponent fields that are not frozensets (their order would follow the text): {bad}", oc.where())
 
+    # the grammar side of the same fact: which component an assignment line belongs to does not depend on where a comment
+    # or blank line stands among the lines of its block
+    from .c11 import grammar
+    from .c17 import check_block_items, comment_rule_name
+
+    G10 = grammar(ctx)
+    check_block_items(ctx, "R10.b", G10, comment_rule_name(ctx, G10))
+    check_single_pass_lookups(ctx, "R10.b")
+
     ctx.rule("R10.e", "a name is defined at most once: of two definitions that compare equal (equality ignores the expression tree) a set keeps the one inserted first, i.e. the one written first", floor=3)
     from .c08 import check_redefinition_guard
 
@@ -62,3 +71,60 @@ def run(ctx: Ctx):
     compares = [n for n in ast.walk(eq.node) if isinstance(n, ast.Compare)]
     mentions_components = any("components" in norm(c) for c in compares) or any("components" in norm(n) for n in ast.walk(eq.node) if isinstance(n, ast.Call))
     ctx.check(not bad_eq and mentions_components, "R10.c", eq.key("components"), "components are compared after sorting by name", "ODE.__eq__ compares the text-ordered `components` tuples element-wise (or does not compare components at all): models written with their blocks in another order compare unequal" if bad_eq else "ODE.__eq__ no longer compares the components", eq.where())
+
+
+def check_single_pass_lookups(ctx: Ctx, rule: str):
+    """The transformer visits the lines of the text once, in textual order, and records what it has seen in dicts / sets.
+    Within that pass, the only thing that may be asked of such a record is whether *the name being defined* is already
+    there (a duplicate is a duplicate in either order).  Looking up any *other* name - `is the state of this derivative
+    already declared?` - makes acceptance of the model depend on the order of its blocks and lines."""
+    sm = ctx.sm
+    cls = sm.cls("transformer.py", "TreeToODE")
+    n_loops = 0
+    for mname, f in cls.methods.items():
+        for loop in [n for n in ast.walk(f.node) if isinstance(n, ast.For)]:
+            # records: names bound before the loop to an empty dict / set / defaultdict and written inside the loop
+            written: dict[str, set[str]] = {}
+
+            def key_of(node):
+                return norm(node)
+
+            aliases = {t.id: norm(st.value) for st in ast.walk(loop) if isinstance(st, ast.Assign) and len(st.targets) == 1 and isinstance((t := st.targets[0]), ast.Name) and isinstance(st.value, (ast.Attribute, ast.Name))}
+
+            def canon(k: str) -> str:
+                seen = set()
+                while k in aliases and k not in seen:
+                    seen.add(k)
+                    k = aliases[k]
+                return k
+
+            for n in ast.walk(loop):
+                if isinstance(n, ast.Call) and isinstance(n.func, ast.Attribute) and isinstance(n.func.value, ast.Name) and n.func.attr in ("setdefault", "add") and n.args:
+                    written.setdefault(n.func.value.id, set()).add(canon(key_of(n.args[0])))
+                if isinstance(n, ast.Subscript) and isinstance(n.ctx, ast.Store) and isinstance(n.value, ast.Name):
+                    written.setdefault(n.value.id, set()).add(canon(key_of(n.slice)))
+            local_records = {name for name in written if any(isinstance(st, (ast.Assign, ast.AnnAssign)) and any(isinstance(t, ast.Name) and t.id == name for t in (st.targets if isinstance(st, ast.Assign) else [st.target])) and st.value is not None and norm(st.value).split("(")[0] in ("{}", "dict", "set", "defaultdict", "collections.defaultdict", "OrderedDict") + ("{}",) for st in ast.walk(f.node))}
+            if not local_records:
+                continue
+            n_loops += 1
+            for rec in sorted(local_records):
+                keys = written[rec]
+                reads = []
+                for n in ast.walk(loop):
+                    k = None
+                    if isinstance(n, ast.Call) and isinstance(n.func, ast.Attribute) and isinstance(n.func.value, ast.Name) and n.func.value.id == rec and n.func.attr in ("get", "__contains__", "pop") and n.args:
+                        k = n.args[0]
+                    elif isinstance(n, ast.Compare) and len(n.ops) == 1 and isinstance(n.ops[0], (ast.In, ast.NotIn)) and isinstance(n.comparators[0], ast.Name) and n.comparators[0].id == rec:
+                        k = n.left
+                    elif isinstance(n, ast.Subscript) and isinstance(n.ctx, ast.Load) and isinstance(n.value, ast.Name) and n.value.id == rec:
+                        k = n.slice
+                    if k is not None and canon(key_of(k)) not in keys:
+                        reads.append((n, canon(key_of(k))))
+                key = f.key(f"single-pass::{rec}")
+                if reads:
+                    n0, k0 = reads[0]
+                    ctx.fail(rule, key, f"TreeToODE.{mname}: while the lines are visited in textual order, `{rec}` (filled under {sorted(keys)}) is asked for another name, `{k0}`: whether that name has been seen yet depends on the order of the blocks and lines of the text (a derivative before its states block, a use before its definition)", f.where(n0))
+                else:
+                    ctx.ok(rule, key, f"`{rec}` is only asked for the name being defined", f.where(loop))
+    if not n_loops:
+        ctx.undecided(rule, "src/gotranx/transformer.py::TreeToODE::single-pass", "no loop of the transformer that records what it has seen in a dict / set was found", "")
